@@ -93,6 +93,7 @@ def stampKey : Key := [115, 99, 104, 101, 109, 97, 95, 118, 101, 114, 115, 105, 
 /-- The schema version a document declares: an absent or null stamp is version 0. -/
 def versionOf (d : YVal) : Option Nat :=
   match d with
+  | .null => some 0       -- a null document is an empty one
   | .obj es =>
     match lookupE stampKey es with
     | none => some 0
@@ -251,7 +252,7 @@ def splitOK (one : Res) (sr : Nat × Res) : Bool :=
   | .same _, .same _ => true
   | _, _ => false
 
-def specWhy (c : Case) (o : Obs) : Option Why :=
+def specWhy (orc : Oracles) (c : Case) (o : Obs) : Option Why :=
   -- never panics
   match firstSome Res.panicWhy (allRes o) with
   | some w => some w
@@ -265,10 +266,12 @@ def specWhy (c : Case) (o : Obs) : Option Why :=
   else
   match c.parsed with
   | none => none
-  | some din =>
-    match versionOf din with
+  | some din0 =>
+    match versionOf din0 with
     | none => none
     | some cur =>
+      -- the settings as YAML writes them back (`1.5e3` is the setting `1500`)
+      let din := (reparse orc (match din0 with | .null => .obj [] | d => d)).getD din0
       if cur > c.target || c.target > 29 then none
       -- upgrading an already current file changes nothing
       else if cur == c.target then
@@ -287,7 +290,7 @@ def specWhy (c : Case) (o : Obs) : Option Why :=
                | _ => false) then some (.settingLost 0)
       else none
 
-def specOK (c : Case) (o : Obs) : Bool := (specWhy c o).isNone
+def specOK (orc : Oracles) (c : Case) (o : Obs) : Bool := (specWhy orc c o).isNone
 
 /-! ### The model's observation of a case -/
 
